@@ -33,6 +33,7 @@ func (e *Engine) BuildVC(fn *ssa.Function, prop string) (vc *VC, err error) {
 	for pass := 0; pass < 8; pass++ {
 		vc = newVC(e, fn, known, unmod)
 		vc.prop = prop
+		vc.noSafety = e.sweepMode
 		vc.runTop()
 		stable := len(vc.known) == len(known)
 		if stable {
@@ -141,6 +142,17 @@ func (vc *VC) runTop() {
 		env = fr.specEnvEntry()
 	}
 	vc.assumePackageFacts(fr, env)
+	for _, p := range fn.Params {
+		for _, c := range vc.typeAssumesFor(p.Type()) {
+			t, err := fr.evalSpecBool(c.Expr, env.bind("self", fr.vals[p]))
+			if err != nil {
+				vc.specError(fr, c, err)
+				continue
+			}
+			vc.assume("true", imp(not(eq(fr.vals[p].T, "0")), t))
+			vc.globalsUsed = append(vc.globalsUsed, "typeassume "+types.TypeString(p.Type(), nil)+": "+c.Text)
+		}
+	}
 	// type invariants of pointer params
 	for _, p := range fn.Params {
 		for _, c := range vc.typeInvsFor(p.Type()) {
@@ -258,6 +270,22 @@ func (vc *VC) typeInvsFor(t types.Type) []*Clause {
 		return nil
 	}
 	return pc.TypeInvs[n.Obj().Name()]
+}
+
+func (vc *VC) typeAssumesFor(t types.Type) []*Clause {
+	p, ok := t.Underlying().(*types.Pointer)
+	if !ok {
+		return nil
+	}
+	n := namedOf(p.Elem())
+	if n == nil || n.Obj().Pkg() == nil {
+		return nil
+	}
+	pc := vc.eng.contracts[n.Obj().Pkg().Path()]
+	if pc == nil {
+		return nil
+	}
+	return pc.TypeAssumes[n.Obj().Name()]
 }
 
 func (vc *VC) assumePackageFacts(fr *Frame, env *SpecEnv) {
@@ -556,8 +584,7 @@ func (fr *Frame) modTargets(fc *FuncContract, env *SpecEnv) []modTarget {
 					out = append(out, modTarget{mh.dom, mh.domS, v.T}, modTarget{mh.val, mh.valS, v.T}, modTarget{mh.ln, mh.lnS, v.T})
 					continue
 				case "elems":
-					es := U.sortOf(v.Typ.Underlying().(*types.Slice).Elem())
-					hn, hs := fr.elemHeap(es)
+					hn, hs := U.elemHeapT(v.Typ.Underlying().(*types.Slice).Elem())
 					out = append(out, modTarget{hn, hs, sx("sarr", v.T)})
 					continue
 				case "allfields":
@@ -611,8 +638,8 @@ func (fr *Frame) modTargets(fc *FuncContract, env *SpecEnv) []modTarget {
 		if st, ok := e.(*ast.StarExpr); ok {
 			p, err := env.eval(st.X)
 			if err == nil {
-				es := U.sortOf(deref(p.Typ))
-				out = append(out, modTarget{"P|" + es, arrSort(SInt, es), p.T})
+				phn, phs := U.ptrHeapT(deref(p.Typ))
+				out = append(out, modTarget{phn, phs, p.T})
 				continue
 			}
 		}
@@ -662,6 +689,7 @@ func (fr *Frame) havocModifies(fc *FuncContract, env *SpecEnv, callee *ssa.Funct
 	names := map[string]Sort{}
 	if ms != nil {
 		for n, s := range ms.Names {
+			ms.declareIn(vc.U, n)
 			names[n] = s
 		}
 	}
